@@ -19,7 +19,7 @@ CHECKS = {
             "Valid generated programs, token-level mutations of them over the full token alphabet (every keyword and builtin name in every position), raw bytes and directed probes are fed to parser.ParseFile, File.String, Compiler.Compile+Bytecode+RemoveDuplicates, Script.Compile under random configurations (module maps incl. the input as its own module, 0/3/1000/1030 predeclared variables, file import, const-object limit) and as a module body. A panic or a watchdog firing is a violation; every position in a returned ErrorList/CompilerError is recomputed from an independent line table. Held on the inputs listed in evidence.",
             "Inputs <= 64 KiB. Non-termination = 90 s without progress on a case that normally takes milliseconds."),
     "C05": ("exploration",
-            "hostile-workload runtime monitor: worker-side recover and watchdogs around Compiled.RunContext, post-run structural invariant walk of all globals (no Go-nil object), liveness probe of Get/Set/Clone/second RunContext, driver-side supervision of worker death, child-process probes for process-fatal inputs",
+            "hostile-workload runtime monitor: worker-side recover and watchdogs around every context-aware entry point (Compiled.RunContext / Script.RunContext x cancellable / non-cancellable context), recovery run of the same Compiled with the hostile part switched off, post-run structural invariant walk of all globals (no Go-nil object), liveness probe of Get/Set/Clone/second RunContext, driver-side supervision of worker death, child-process probes for process-fatal inputs",
             "Hostile programs (failure atoms for every operator x type pair, index/slice/selector misuse, call misuse, runaway recursion of several shapes, mutation while iterating, every builtin with every argument type and arity, extreme arguments, immutable writes; planted at top level, in closures, loops, call arguments and module functions; plus generated programs with 15% ill-typed operations) are executed through RunContext with instruction and allocation budgets. A panic reaching the host, a call that does not return, a Go-nil object reachable from the globals, a host-side read that panics, or a compiled object that cannot be used again is a violation; worker death is caught by the driver. Cyclic containers (recorded finding) are probed by exact inputs in a child process. Held on the programs listed in evidence.",
             "Unbounded allocation is outside the claim. Known findings: the eight cyclic-container inputs in known_findings.jsonl."),
     "C06": ("exploration",
@@ -27,7 +27,7 @@ CHECKS = {
             "(a) For generated programs the unlimited run is observed by the probe, which counts tracked allocations by classifying completed instructions; every budget N = 0..A+3 and -1 is then run: below A the run must stop with ErrObjectAllocLimit having completed at most N allocations, from A on it must equal the unlimited run. (b) With small string/bytes maxima every core-language producer is driven across the boundary; over-long results must be refused with the limit sentinel, fitting ones produced, and after every run all values reachable from the globals are walked. (c) Recursion beyond the frame limit must end in ErrStackOverflow, beyond the operand stack in some error. Held on the cases listed in evidence.",
             "Trusted: the probe's instruction classification as the independent allocation count. Process-wide limits are changed only inside single-threaded workers."),
     "C07": ("exploration",
-            "schedule exploration at logical instants: the VM probe cancels the context from inside the VM goroutine at the k-th dispatched instruction while build-tagged yield points perturb the caller side; online monitors on return value, instructions dispatched after the abort flag, goroutine dump, re-run result; all under the Go race detector",
+            "schedule exploration at logical instants: the VM probe cancels the context (explicit cancel or expired deadline; through Compiled.RunContext and Script.RunContext) from inside the VM goroutine at the k-th dispatched instruction while build-tagged yield points perturb the caller side; online monitors on return value, instructions dispatched after the abort flag, goroutine dump, re-run result; all under the Go race detector",
             "Script families (never-ending when limit = -1) are cancelled at instants 0 (already cancelled), 1, 2, inside, last instruction, after finish. The returned error must be ctx.Err() or, only if the script finished, its own result; at most one instruction may be dispatched once the abort flag is set; the flag must become visible within 5*10^7 instructions and 10 s; no goroutine with VM frames may survive; the same Compiled must then run a finite limit correctly. Direct VM reuse (Run, Abort, Run) is driven as well. The harness is built with -race (halt_on_error=1). Held on the (script, limit, instant) triples listed in evidence.",
             "Bounded-progress restatement of 'promptly': measured in dispatched instructions after the flag is set. Go scheduler latency between cancel() and Abort() is outside the engine."),
     "C08": ("exploration",
@@ -47,7 +47,7 @@ CHECKS = {
             "For every generated closure-heavy program P up to 10 variants T(P) are produced textually from the parser's positions; P and each T(P) run through Script.Compile/RunContext and must give the same values for P's top-level variables or the same error message and line. P is also compared with the reference interpreter. Held on the (program, transformation) pairs listed in evidence.",
             "Trusted: the parser's node positions (used to cut expressions), the generator's guarantee that no closure outlives the loop iteration of a variable it captures."),
     "C03": ("translation_validation",
-            "differential runtime monitor + assertion on hooked optimizer state: every program compiled with and without dead-code elimination (build-tagged hook) and both run under the VM probe; optimizeFunc's own tables checked against an independently recomputed CFG",
+            "differential runtime monitor + assertion on hooked optimizer state: every program (generated control-heavy programs, module bodies with removable top-level code, functions larger than 64 KiB) compiled with and without dead-code elimination (build-tagged hook) and both run under the VM probe; optimizeFunc's own tables checked against an independently recomputed CFG",
             "Per program: (a) optimized and keep-dead twins are compiled in one process and run; globals, full error text and every trace position must be identical; (b) for every optimizeFunc invocation the hook delivers the original stream, the position map, the new stream and both source maps, and the monitor asserts that nothing removed is CFG-reachable, every kept jump points at the image of its target, source-map entries travel with their instruction and order/content is preserved. Held on the programs listed in evidence.",
             "Trusted: the keep-dead hook (same compiler, pass 2 disabled); the reference model only as a filter for order-dependent programs."),
     "C12": ("translation_validation",
